@@ -274,7 +274,8 @@ Definition binary_search (n : Z) (cmpf : Z -> comparison) : option Z :=
   else let base := bs_loop (Z.to_nat n) cmpf 0 n in
        match cmpf base with Eq => Some base | _ => None end.
 
-Definition nthz {A} (l : list A) (i : Z) : option A := if i <? 0 then None else nth_error l (Z.to_nat i).
+Definition nthz {A} (l : list A) (i : Z) : option A :=
+  if (i <? 0) || (Z.of_nat (length l) <=? i) then None else nth_error l (Z.to_nat i).   (* <[T]>::get(i) *)
 Definition rec_cmp (recs : list (list Z)) (tag : Z) (i : Z) : comparison :=
   match nthz recs i with Some r => Z.compare (rec_tag r) tag | None => Gt end.
 
